@@ -24,6 +24,7 @@ DECIDES = (
     "file (C02.DET-SOURCES); the neighbour relation is symmetric (C02.NEIGHBOUR-SYMMETRY)."
     ' BlockList.propagate_gradings, with the real Block/Axis methods below it and only the wire managers abstracted, is run over all 24 insertion orders of a 4-block chain and several chop placements: every well-posed family is completed, an ill-posed one raises UndefinedGradingsError, within a step budget (C02.FIXPOINT-SCHEDULES); the aligned / anti-aligned copy carries the resolved count (C02.COPY-CARRIES-COUNT = C04.ALIGNMENT-BRANCH) and the consistency check refuses exactly the models with different total counts (C02.CONSISTENCY-EXACT = C01.CONSISTENCY-REACH).'
     ' The axis-level length is the mean of the four wire lengths in any wire order (C02.AXIS-LENGTH); grading again gives the same counts (C02.GRADE-IDEMPOTENT); two divisions equal by value are both copied (C02.COPY-CARRIES-COUNT).'
+    " The schedule model also holds isolated blocks (alone, or detached from the rest) and evaluates what a manager reports as its count with the repository's own code (parts of C02.FIXPOINT-SCHEDULES)."
 )
 NOT_DECIDED = "that every well-posed family actually receives its count on every topology (a reachability fact about runtime block graphs)."
 ASSUMPTIONS = [
